@@ -267,6 +267,7 @@ static bool g_fd_track = false;
 static std::set<FILE*> g_live_files;
 static std::set<int> g_tracked_fds;
 
+static void forget_fd_stream(int fd);
 static int count_open_fds() {
   int n = 0;
   for (int fd = 0; fd < 4096; ++fd)
@@ -316,6 +317,7 @@ int fclose(FILE* f) {
 }
 int close(int fd) {
   static close_fn real = (close_fn)dlsym(RTLD_NEXT, "close");
+  forget_fd_stream(fd);
   int r = real(fd);
   if (g_fd_track) {
     int e = errno;
@@ -726,6 +728,229 @@ static std::string capture_take_from(sexp ctx, Capture& c) {
 }
 static std::string capture_take(sexp ctx) { return capture_take_from(ctx, g_out); }
 
+
+// ---------------------------------------------------------------------------
+// Stream layer: one byte source/sink abstraction with three front ends
+//   cookie  -- FILE* made by fopencookie (stdio path: getc/ungetc/fwrite)
+//   fd      -- a descriptor whose read/write/poll are interposed (fileno ports; would-block + readiness)
+//   custom  -- foreign reader/writer behind (chibi io) custom ports
+// Every call consumes the next entry of the stream's chunk tape:
+//   n > 0  transfer at most n bytes      0  transfer everything asked for (default when the tape is exhausted)
+//   n < 0  would-block for -n ticks (fd kind only)      STREAM_EIO  fail once with EIO
+
+static const int64_t STREAM_EIO = -1000000;
+
+struct Stream {
+  std::string name, kind;
+  bool input = true;
+  std::string data;      // input: bytes still to deliver (from pos)
+  size_t pos = 0;
+  std::string sink;      // output: bytes accepted so far
+  std::vector<int64_t> chunks;
+  size_t ci = 0;
+  int fd = -1;
+  uint64_t ready_tick = 0;
+  bool closed = false;
+  uint64_t calls = 0, shorts = 0, blocks = 0, eios = 0, eofs = 0;
+
+  int64_t next_entry() { return ci < chunks.size() ? chunks[ci++] : 0; }
+
+  // returns bytes transferred, 0 for EOF (input), or -1 with errno set
+  ssize_t do_read(char* buf, size_t req) {
+    calls++;
+    if (kind == "fd" && W.ticks < ready_tick) { errno = EAGAIN; return -1; }
+    size_t remaining = data.size() - pos;
+    if (req == 0) return 0;
+    int64_t e = next_entry();
+    if (e == STREAM_EIO) { eios++; W.counters["stream_eio"]++; W.event("stream %s read EIO", name.c_str()); errno = EIO; return -1; }
+    if (e < 0) {
+      if (kind == "fd" && remaining > 0) {
+        blocks++; W.counters["stream_would_block"]++;
+        ready_tick = W.ticks + (uint64_t)(-e);
+        W.event("stream %s read EAGAIN until tick %llu", name.c_str(), (unsigned long long)ready_tick);
+        errno = EAGAIN;
+        return -1;
+      }
+      e = 1;
+    }
+    if (remaining == 0) { eofs++; W.counters["stream_eof"]++; return 0; }
+    size_t n = req < remaining ? req : remaining;
+    if (e > 0 && (size_t)e < n) { n = (size_t)e; shorts++; W.counters["stream_short_read"]++; }
+    // probe: a multi-byte UTF-8 sequence split by this delivery
+    unsigned char last = (unsigned char)data[pos + n - 1];
+    if (pos + n < data.size() && ((last & 0x80) && ((unsigned char)data[pos + n] & 0xC0) == 0x80)) W.counters["probe:utf8_split_by_delivery"]++;
+    memcpy(buf, data.data() + pos, n);
+    pos += n;
+    W.event("stream %s read %zu", name.c_str(), n);
+    return (ssize_t)n;
+  }
+  ssize_t do_write(const char* buf, size_t len) {
+    calls++;
+    if (kind == "fd" && W.ticks < ready_tick) { errno = EAGAIN; return -1; }
+    if (len == 0) return 0;
+    int64_t e = next_entry();
+    if (e == STREAM_EIO) { eios++; W.counters["stream_eio"]++; W.event("stream %s write EIO", name.c_str()); errno = EIO; return -1; }
+    if (e < 0) {
+      if (kind == "fd") {
+        blocks++; W.counters["stream_would_block"]++;
+        ready_tick = W.ticks + (uint64_t)(-e);
+        W.event("stream %s write EAGAIN until tick %llu", name.c_str(), (unsigned long long)ready_tick);
+        errno = EAGAIN;
+        return -1;
+      }
+      e = 1;
+    }
+    size_t n = len;
+    if (e > 0 && (size_t)e < n) { n = (size_t)e; shorts++; W.counters["stream_short_write"]++; }
+    sink.append(buf, n);
+    W.event("stream %s write %zu", name.c_str(), n);
+    return (ssize_t)n;
+  }
+};
+
+static std::map<std::string, Stream*> g_streams;
+static std::map<int, Stream*> g_fd_streams;
+
+static void forget_fd_stream(int fd) {
+  auto it = g_fd_streams.find(fd);
+  if (it != g_fd_streams.end()) { it->second->closed = true; it->second->fd = -1; g_fd_streams.erase(it); }
+}
+
+static Stream* stream_by_name(sexp ctx, sexp name) {
+  std::string n = sexp_stringp(name) ? sexp_to_std(ctx, name) : "";
+  auto it = g_streams.find(n);
+  return it == g_streams.end() ? nullptr : it->second;
+}
+
+static ssize_t cookie_read(void* c, char* buf, size_t n) { return ((Stream*)c)->do_read(buf, n); }
+static ssize_t cookie_write(void* c, const char* buf, size_t n) {
+  ssize_t r = ((Stream*)c)->do_write(buf, n);
+  return r < 0 ? 0 : r;   // fopencookie: 0 signals an error
+}
+static int cookie_close(void* c) { ((Stream*)c)->closed = true; return 0; }
+
+extern "C" {
+typedef ssize_t (*read_fn)(int, void*, size_t);
+typedef ssize_t (*write_fn)(int, const void*, size_t);
+typedef int (*poll_fn)(struct pollfd*, nfds_t, int);
+
+ssize_t read(int fd, void* buf, size_t n) {
+  static read_fn real = (read_fn)dlsym(RTLD_NEXT, "read");
+  if (!g_fd_streams.empty()) {
+    auto it = g_fd_streams.find(fd);
+    if (it != g_fd_streams.end()) return it->second->do_read((char*)buf, n);
+  }
+  return real(fd, buf, n);
+}
+ssize_t write(int fd, const void* buf, size_t n) {
+  static write_fn real = (write_fn)dlsym(RTLD_NEXT, "write");
+  if (!g_fd_streams.empty()) {
+    auto it = g_fd_streams.find(fd);
+    if (it != g_fd_streams.end()) return it->second->do_write((const char*)buf, n);
+  }
+  return real(fd, buf, n);
+}
+int poll(struct pollfd* fds, nfds_t nfds, int timeout) {
+  static poll_fn real = (poll_fn)dlsym(RTLD_NEXT, "poll");
+  if (g_fd_streams.empty()) return real(fds, nfds, timeout);
+  int ready = 0;
+  for (nfds_t i = 0; i < nfds; ++i) {
+    auto it = g_fd_streams.find(fds[i].fd);
+    fds[i].revents = 0;
+    if (it != g_fd_streams.end()) {
+      Stream* st = it->second;
+      if (W.ticks >= st->ready_tick) fds[i].revents = st->input ? (fds[i].events & POLLIN) : (fds[i].events & POLLOUT);
+      if (fds[i].revents) ++ready;
+    } else {
+      struct pollfd one = fds[i];
+      if (real(&one, 1, 0) > 0) { fds[i].revents = one.revents; ++ready; }
+    }
+  }
+  return ready;
+}
+}
+
+static sexp sim_stream_kind_proc(sexp ctx, sexp self, sexp_sint_t n, sexp name) {
+  (void)self; (void)n;
+  Stream* st = stream_by_name(ctx, name);
+  if (!st) return SEXP_FALSE;
+  return sexp_c_string(ctx, st->kind.c_str(), -1);
+}
+
+static sexp sim_open_stream_proc(sexp ctx, sexp self, sexp_sint_t n, sexp name) {
+  Stream* st = stream_by_name(ctx, name);
+  if (!st) return sexp_user_exception(ctx, self, "no such simulated stream", name);
+  sexp_gc_var2(res, fno);
+  sexp_gc_preserve2(ctx, res, fno);
+  if (st->kind == "cookie") {
+    cookie_io_functions_t io = {cookie_read, cookie_write, nullptr, cookie_close};
+    FILE* f = fopencookie(st, st->input ? "r" : "w", io);
+    res = st->input ? sexp_make_input_port(ctx, f, name) : sexp_make_output_port(ctx, f, name);
+  } else if (st->kind == "fd") {
+    if (st->fd < 0) {
+      st->fd = open("/dev/null", O_RDWR | O_NONBLOCK);
+      g_fd_streams[st->fd] = st;
+    }
+    fno = sexp_make_fileno(ctx, sexp_make_fixnum(st->fd), SEXP_FALSE);
+    res = st->input ? sexp_open_input_file_descriptor(ctx, self, 2, fno, SEXP_FALSE)
+                    : sexp_open_output_file_descriptor(ctx, self, 2, fno, SEXP_FALSE);
+    if (sexp_portp(res)) sexp_port_binaryp(res) = 0;
+  } else {
+    res = sexp_user_exception(ctx, self, "custom streams are opened through (chibi io)", name);
+  }
+  sexp_gc_release2(ctx);
+  return res;
+}
+
+// custom port reader: (sim-custom-read name buf start end) -> new end position
+static sexp sim_custom_read_proc(sexp ctx, sexp self, sexp_sint_t n, sexp name, sexp buf, sexp start, sexp end) {
+  (void)n;
+  Stream* st = stream_by_name(ctx, name);
+  if (!st || !sexp_fixnump(start) || !sexp_fixnump(end)) return sexp_user_exception(ctx, self, "bad custom read", name);
+  char* data; size_t cap;
+  if (sexp_stringp(buf)) { data = sexp_string_data(buf); cap = sexp_string_size(buf); }
+  else if (sexp_bytesp(buf)) { data = sexp_bytes_data(buf); cap = sexp_bytes_length(buf); }
+  else return sexp_user_exception(ctx, self, "bad custom read buffer", buf);
+  sexp_sint_t s0 = sexp_unbox_fixnum(start), e0 = sexp_unbox_fixnum(end);
+  if (s0 < 0 || e0 < s0 || (size_t)e0 > cap) return sexp_user_exception(ctx, self, "custom read range outside buffer", buf);
+  ssize_t k = st->do_read(data + s0, (size_t)(e0 - s0));
+  if (k < 0) k = 0;
+  return sexp_make_fixnum(s0 + k);
+}
+static sexp sim_custom_write_proc(sexp ctx, sexp self, sexp_sint_t n, sexp name, sexp buf, sexp start, sexp end) {
+  (void)n;
+  Stream* st = stream_by_name(ctx, name);
+  if (!st || !sexp_fixnump(start) || !sexp_fixnump(end)) return sexp_user_exception(ctx, self, "bad custom write", name);
+  const char* data; size_t cap;
+  if (sexp_stringp(buf)) { data = sexp_string_data(buf); cap = sexp_string_size(buf); }
+  else if (sexp_bytesp(buf)) { data = sexp_bytes_data(buf); cap = sexp_bytes_length(buf); }
+  else return sexp_user_exception(ctx, self, "bad custom write buffer", buf);
+  sexp_sint_t s0 = sexp_unbox_fixnum(start), e0 = sexp_unbox_fixnum(end);
+  if (s0 < 0 || e0 < s0 || (size_t)e0 > cap) return sexp_user_exception(ctx, self, "custom write range outside buffer", buf);
+  // the custom-port protocol has no partial-write continuation: accept everything, in tape-sized pieces
+  size_t off = 0, len = (size_t)(e0 - s0);
+  while (off < len) {
+    ssize_t k = st->do_write(data + s0 + off, len - off);
+    if (k <= 0) break;
+    off += (size_t)k;
+  }
+  return sexp_make_fixnum((sexp_sint_t)off);
+}
+
+static void configure_streams(const js::Value& plan) {
+  const js::Value* ss = plan.get("streams");
+  if (!ss || ss->kind != js::Value::Obj) return;
+  for (auto& kv : ss->o) {
+    Stream* st = new Stream();
+    st->name = kv.first;
+    st->kind = kv.second->gets("kind", "cookie");
+    st->input = kv.second->gets("dir", "in") == "in";
+    st->data = hexdecode(kv.second->gets("data", ""));
+    st->chunks = kv.second->getiv("chunks");
+    g_streams[st->name] = st;
+  }
+}
+
 // ---------------------------------------------------------------------------
 // Scheduler shim: the tick source. Calls the real SRFI-18 scheduler when it is
 // loaded; decides the next slice length, advances the clock, raises interrupts,
@@ -948,6 +1173,10 @@ static sexp sim_open_fd_proc(sexp ctx, sexp self, sexp_sint_t n, sexp noclose) {
 
 static void define_sim_procs(sexp ctx, sexp env) {
   sexp_define_foreign(ctx, env, "sim-open-fd", 1, sim_open_fd_proc);
+  sexp_define_foreign(ctx, env, "sim-stream-kind", 1, sim_stream_kind_proc);
+  sexp_define_foreign(ctx, env, "sim-open-stream", 1, sim_open_stream_proc);
+  sexp_define_foreign(ctx, env, "sim-custom-read", 4, sim_custom_read_proc);
+  sexp_define_foreign(ctx, env, "sim-custom-write", 4, sim_custom_write_proc);
   sexp_define_foreign(ctx, env, "sim-gc", 0, sim_gc_proc);
   sexp_define_foreign(ctx, env, "sim-mark", 1, sim_mark_proc);
   sexp_define_foreign(ctx, env, "sim-probe", 1, sim_probe_proc);
@@ -1050,6 +1279,18 @@ static void emit_result(const char* status) {
   w.key("counters"); w.begin_obj();
   for (auto& kv : W.counters) w.kv(kv.first.c_str(), kv.second);
   w.end_obj();
+  if (!g_streams.empty()) {
+    w.key("streams"); w.begin_obj();
+    for (auto& kv : g_streams) {
+      Stream* st = kv.second;
+      w.key(kv.first.c_str()); w.begin_obj();
+      if (!st->input) w.kv("sink", hexencode(st->sink));
+      else w.kv("consumed", (uint64_t)st->pos);
+      w.kv("calls", st->calls); w.kv("shorts", st->shorts); w.kv("blocks", st->blocks); w.kv("eios", st->eios);
+      w.end_obj();
+    }
+    w.end_obj();
+  }
   if (!g_stack_samples.empty()) {
     w.key("stack"); w.begin_arr();
     for (auto& s : g_stack_samples) { w.begin_arr(); w.num(s.label); w.num(s.top); w.num(s.len); w.end_arr(); }
@@ -1149,6 +1390,7 @@ static void run_plan(const js::Value& plan) {
   g_plan = &plan;
   g_plan_id = plan.geti("id", 0);
   configure_world(plan);
+  configure_streams(plan);
   sexp ctx = W.ctx, env = W.env;
   const js::Value* knobs = plan.get("knobs");
   if (knobs && knobs->getb("fresh_ctx", false)) {
